@@ -37,13 +37,17 @@ VARIANTS = {
   "delay": dict(opt="", delay=True),
   "tightcon": dict(opt="", tight=True),
   "rk4": dict(opt='integrator="RK4"'),
+  "grid_sap_tile_sleep": dict(scene="grid", sleep=True, broadphase="SAP_TILE"),
+  "grid_sap_seg_sleep": dict(scene="grid", sleep=True, broadphase="SAP_SEGMENTED"),
+  "grid_nxn_sleep": dict(scene="grid", sleep=True, broadphase="NXN"),
+  "grid_sap_tile": dict(scene="grid", sleep=False, broadphase="SAP_TILE"),
   "implicitfast": dict(opt='integrator="implicitfast"'),
 }
 
 
 def scenarios(tier, seed):
   out = []
-  names = ["dense", "sparse", "elliptic", "sleep", "delay", "tightcon"] + (["rk4", "implicitfast"] if tier == "thorough" else [])
+  names = ["dense", "sparse", "elliptic", "sleep", "delay", "tightcon", "grid_sap_tile_sleep", "grid_sap_seg_sleep", "grid_nxn_sleep", "grid_sap_tile"] + (["rk4", "implicitfast"] if tier == "thorough" else [])
   for v in names:
     for nw in (2, 3):
       for a in itertools.product(range(NSIT), repeat=nw):
@@ -57,14 +61,58 @@ def scenarios(tier, seed):
 _M, _SOLO = {}, {}
 
 
+GRID_N = 9
+
+
+def grid_xml(sleep):
+  """9 free boxes in a tight 3x3 grid (nv=55: dense Jacobian) on a plane plus a hinge with friction loss (every world always has a row):
+  a dense sweep-and-prune axis (many AABB overlaps along the sweep direction), whole trees that can be asleep."""
+  flag = '<flag sleep="enable"/>' if sleep else ""
+  bodies = ""
+  for i in range(GRID_N):
+    x, y = 0.23 * (i % 3), 0.23 * (i // 3)
+    bodies += f'<body name="g{i}" pos="{x:.3f} {y:.3f} 0.0995"><freejoint name="f{i}"/><geom type="box" size=".1 .1 .1" mass="0.5"/></body>'
+  # 24 static spheres hovering over the grid: no contacts, but their sweep-axis projections overlap everything, so the SAP
+  # candidate count exceeds the number of launched threads and the grid-stride loop of the SAP kernel really strides
+  statics = "".join(f'<geom type="sphere" size="0.02" pos="{0.03 * (i % 8) + 0.1:.3f} {0.09 * (i // 8) + 0.1:.3f} {0.6 + 0.05 * (i % 3):.3f}"/>' for i in range(24))
+  return f"""<mujoco><option timestep="0.004" jacobian="dense">{flag}</option><worldbody><geom name="floor" type="plane" size="5 5 .1"/>{statics}{bodies}
+  <body pos="2 0 1"><joint name="hh" type="hinge" axis="0 1 0" frictionloss="0.1" damping="0.1"/><geom type="capsule" fromto="0 0 0 .2 0 0" size=".03" contype="0" conaffinity="0"/></body>
+  </worldbody></mujoco>"""
+
+
 def _model(v):
   import mujoco_warp as mjw
 
   if v not in _M:
     cfg = VARIANTS[v]
-    mjm = util.load(scenes.rich(cfg.get("opt", ""), sleep=cfg.get("sleep", False), delay=cfg.get("delay", False)))
-    _M[v] = (mjm, mjw.put_model(mjm))
+    if cfg.get("scene") == "grid":
+      mjm = util.load(grid_xml(cfg.get("sleep", False)))
+    else:
+      mjm = util.load(scenes.rich(cfg.get("opt", ""), sleep=cfg.get("sleep", False), delay=cfg.get("delay", False)))
+    m = mjw.put_model(mjm)
+    if cfg.get("broadphase"):
+      m.opt.broadphase = getattr(mjw.BroadphaseType, cfg["broadphase"])
+    _M[v] = (mjm, m)
   return _M[v]
+
+
+def _grid_situation(mjm, s, seed):
+  """0: resting, every tree forced asleep; 1: resting awake with small velocities; 2: dropped from 0.5 m;
+  3: boxes pushed into each other (many box-box contacts)."""
+  import mujoco
+
+  d = mujoco.MjData(mjm)
+  for i in range(GRID_N):
+    a = mjm.jnt_qposadr[i]
+    if s == 2:
+      d.qpos[a + 2] += 0.5 + 0.02 * i
+    if s == 3:
+      d.qpos[a] *= 0.9
+      d.qpos[a + 1] *= 0.9
+  if s == 1:
+    d.qvel[:] = 0.02 * np.cos(np.arange(mjm.nv) + seed)
+  d.qpos[mjm.nq - 1] = 0.3 * (s + 1)
+  return d
 
 
 def _situation(mjm, s, seed):
@@ -93,9 +141,24 @@ def _simulate(mjm, m, assign, seed, **kw):
   nw = len(assign)
   kw.setdefault("njmax", 100)
   kw.setdefault("naconmax", 24 * nw)
+  grid = mjm.nbody > GRID_N
+  if grid:
+    kw["njmax"] = 400
+    kw["naconmax"] = max(kw["naconmax"], 120 * nw) if "tight" not in kw else kw["naconmax"]
   d = mjw.make_data(mjm, nworld=nw, **kw)
   for w, s in enumerate(assign):
-    util.copy_state(_situation(mjm, s, seed), d, world=w)
+    util.copy_state((_grid_situation if grid else _situation)(mjm, s, seed), d, world=w)
+  if grid and (m.opt.enableflags & mjw.EnableBit.SLEEP):
+    # situation 0: put every free-box tree to sleep (self-cycles), as the repository's own sleep tests do
+    from mujoco_warp._src import sleep as _sleep
+
+    ta = d.tree_asleep.numpy()
+    for w, s in enumerate(assign):
+      if s == 0:
+        for t in range(GRID_N):
+          ta[w, t] = t
+    util.set_field(d.tree_asleep, ta)
+    _sleep.update_sleep(m, d)
   snaps = []
   for step in range(NSTEP):
     if step >= 1:
@@ -151,9 +214,19 @@ def execute(scn):
       ref = _SOLO[(var, s, seed, nw)][step]
       cc = util.Cmp()
       snap.compare_exact(cc, snap.world_slice(batch[step], w), snap.world_slice(ref, 0), pre=f"assignment {assign} step {step} world {w} (situation {s}) vs same situation in a homogeneous batch of {nw}: ")
-      for v in cc.violations[:4]:
-        v["vkey"] = f"{var}:position:{v['vkey']}"
-        c.violations.append(v)
+      if cc.violations:
+        # same distinction as for batch size: with the sweep-and-prune broadphases the order in which a world's contacts are
+        # listed depends on its batch position (work packages are dealt to threads across worlds), which moves sums by round-off
+        cr = util.Cmp()
+        snap.compare_reorder(cr, snap.world_slice(batch[step], w), snap.world_slice(ref, 0), pre=f"assignment {assign} step {step} world {w} (situation {s}): ", tol=1e-4, skip=("solver_niter",))
+        if cr.violations:
+          for v in cr.violations[:4]:
+            v["vkey"] = f"{var}:position:beyond_roundoff:{v['vkey']}"
+            c.violations.append(v)
+        else:
+          v = cc.violations[0]
+          v["vkey"] = f"{var}:position:bits_differ_within_roundoff"
+          c.violations.append(v)
     if len(c.violations) > 8:
       break
   ncon = [len(x) for x in batch[0].get("contacts", [])]
